@@ -172,7 +172,7 @@ impl Property for C14 {
     }
     fn cases(&self, tier: Tier) -> u64 {
         match tier {
-            Tier::Quick => 2_000_000,
+            Tier::Quick => 8_000_000,
             Tier::Thorough => 100_000_000,
         }
     }
@@ -233,6 +233,6 @@ impl Property for C14 {
     }
     fn floors(&self, tier: Tier) -> Vec<(&'static str, u64)> {
         let q = if tier == Tier::Quick { 1 } else { 40 };
-        vec![("exhaustive-8bit-pairs", 65536), ("even-divisor-solvable(masked path)", 100_000 * q), ("division-by-zero", 20_000 * q), ("exponent>=width", 50_000 * q)]
+        vec![("exhaustive-8bit-pairs", 65536), ("even-divisor-solvable(masked path)", 400_000 * q), ("division-by-zero", 80_000 * q), ("exponent>=width", 200_000 * q)]
     }
 }
